@@ -123,6 +123,25 @@ func ruleRandomBits(e *Env) {
 					return true
 				}
 			}
+			// a drawing function used as a value (`var next = rand.Uint64`), or the package's reader taken
+			// (`io.ReadFull(crypto/rand.Reader, …)`): the draw happens wherever the value ends up
+			for _, in := range b.Instrs {
+				for _, op := range in.Operands(nil) {
+					if op == nil || *op == nil {
+						continue
+					}
+					switch x := (*op).(type) {
+					case *ssa.Function:
+						if x.Pkg != nil && isRandomPkg(x.Pkg.Pkg.Path()) && isDrawName(x.Name()) {
+							return true
+						}
+					case *ssa.Global:
+						if x.Pkg != nil && isRandomPkg(x.Pkg.Pkg.Path()) {
+							return true
+						}
+					}
+				}
+			}
 		}
 		return false
 	}
@@ -137,7 +156,7 @@ func ruleRandomBits(e *Env) {
 				return
 			}
 			f = flow.Origin(f)
-			if seen[f] || f == fn || f.Pkg == nil || f.Pkg.Pkg.Path() != fn.Pkg.Pkg.Path() {
+			if seen[f] || f == fn || !flow.InRepo(f) {
 				return
 			}
 			seen[f] = true
@@ -327,11 +346,14 @@ func isRandomDraw(c *ssa.CallCommon) bool {
 	if pkg == nil {
 		return false
 	}
-	switch pkg.Path() {
-	case "math/rand", "math/rand/v2", "crypto/rand":
-	default:
-		return false
-	}
+	return isRandomPkg(pkg.Path()) && isDrawName(name)
+}
+
+func isRandomPkg(path string) bool {
+	return path == "math/rand" || path == "math/rand/v2" || path == "crypto/rand"
+}
+
+func isDrawName(name string) bool {
 	return !strings.HasPrefix(name, "New") && name != "Seed" && name != "init"
 }
 
